@@ -252,3 +252,73 @@ def read_hashes(paths):
         except OSError:
             pass
     return s
+
+
+def collect(chk, workers, prop, san_props=None, ok_rcs=(0, 4)):
+    """Generic post-processing of harness workers.
+    Harness protocol: 'V {json}' violation records with a comma separated 'props' field,
+    'A {json}' witness written from __asan_on_error, 'X {json}' watchdog, 'S {json}' summary,
+    'H {json}' samples.  Returns (summaries, other_property_counts)."""
+    summaries, other = [], {}
+    for wk in workers:
+        relcmd = [os.path.relpath(wk.cmd[0], VERIF)] + wk.cmd[1:]
+        for v in wk.records("V"):
+            props = v.get("props", "").split(",")
+            rep = {"cmd": relcmd, "case": v.get("case"), "env": wk.env, "oplog": str(v.get("oplog", ""))[-3000:]}
+            rep.update(getattr(wk, "replay_extra", {}))
+            if prop in props:
+                chk.violation(v["key"], v.get("msg", ""), rep)
+            else:
+                other[v["key"]] = other.get(v["key"], 0) + 1
+        san = sanitizer_report(wk.err)
+        if san:
+            kind, top, excerpt = san
+            wit = (wk.records("A") or [{}])[-1]
+            rep = {"cmd": relcmd, "case": wit.get("case"), "env": wk.env, "oplog": str(wit.get("oplog", ""))[-3000:],
+                   "report": excerpt}
+            rep.update(getattr(wk, "replay_extra", {}))
+            mine = san_props(kind, top) if san_props else {prop}
+            if prop in mine:
+                chk.violation("%s:%s" % (kind, top), "%s in %s" % (kind, top), rep)
+            else:
+                other["%s:%s" % (kind, top)] = 1
+        elif wk.timed_out or wk.rc == 3:
+            chk.fail("worker %s hung (watchdog), also on re-run: %s" % (wk.tag, (wk.records("X") or [wk.err[-300:]])[-1]))
+        elif wk.rc not in ok_rcs:
+            rep = {"cmd": relcmd, "env": wk.env, "stderr": wk.err[-2000:], "stdout_tail": wk.out[-1000:]}
+            chk.violation("crash:rc%d" % wk.rc, "harness process died rc=%d (%s)" % (wk.rc, wk.tag), rep)
+        ss = wk.records("S")
+        if ss:
+            summaries.append(ss[-1])
+        elif wk.rc == 0:
+            chk.fail("worker %s produced no summary" % (wk.tag,))
+        for h in wk.records("H")[:2]:
+            if len(chk.samples) < 6:
+                chk.samples.append(h)
+    if other:
+        chk.notes.append("violations of other properties seen in passing (decided by their own checks): %s" % other)
+        print("NOTE other-property observations: %s" % other)
+    return summaries, other
+
+
+def rerun_hung(chk, workers):
+    for wk in workers:
+        if wk.timed_out or wk.rc == 3:
+            chk.notes.append("re-running %s after watchdog" % (wk.tag,))
+            wk.run()
+
+
+def generic_replay(chk, path, exe_resolver):
+    rec = json.load(open(path))
+    r = rec["replay"]
+    cmd = list(r["cmd"])
+    cmd[0] = exe_resolver(cmd[0])
+    wk = Worker(cmd, "replay", timeout=900, env=r.get("env") or {}).run()
+    sys.stdout.write(wk.out[-6000:])
+    sys.stderr.write(wk.err[-6000:])
+    hit = [v for v in wk.records("V") if chk.prop in v.get("props", "").split(",")]
+    if hit or sanitizer_report(wk.err) or wk.rc not in (0, 4):
+        print("VIOLATION property=%s replay=%s" % (chk.prop, path))
+        return 1
+    print("replay: no violation reproduced")
+    return 0
